@@ -11,7 +11,7 @@
 (* The cases are written as ndjson for the Go harness, which types exactly these tokens.         *)
 EXTENDS Integers, Sequences, FiniteSets, TLC, Json, SequencesExt
 
-CONSTANTS LeafKinds, Depth, OutFile, Seed, WsPerTree, Sample, Muts
+CONSTANTS LeafKinds, Depth, OutFile, Seed, WsPerTree, Sample, Muts, Suffix
 
 Level(T) == CASE T.op = "LEAF" -> 9 [] T.op = "OR" -> 1 [] T.op = "AND" -> 2 [] T.op = "NOT" -> 3
               [] T.op = "BOOST" -> 4 [] T.op = "FUZZY" -> 5 [] T.op = "MUST_NOT" -> 6 [] T.op = "MUST" -> 7
@@ -22,9 +22,10 @@ Un(o, a) == [op |-> o, a |-> a]
 Sx(o, a, p) == [op |-> o, a |-> a, p |-> p]
 Bi(o, a, b) == [op |-> o, a |-> a, b |-> b]
 T0 == {Lf(k) : k \in LeafKinds}
+\* Suffix = FALSE leaves out ~ and ^ (the SQL renderers reject them by design)
 Grow(S) == S \cup {Un(o, a) : o \in {"NOT","MUST","MUST_NOT"}, a \in S}
-             \cup {Sx("FUZZY", a, p) : a \in S, p \in {"none","int"}}
-             \cup {Sx("BOOST", a, p) : a \in S, p \in {"none","int","float"}}
+             \cup (IF Suffix THEN {Sx("FUZZY", a, p) : a \in S, p \in {"none","int"}} ELSE {})
+             \cup (IF Suffix THEN {Sx("BOOST", a, p) : a \in S, p \in {"none","int","float"}} ELSE {})
              \cup {Bi(o, a, b) : o \in {"AND","OR"}, a \in S, b \in S}
 RECURSIVE TreesTo(_)
 TreesTo(d) == IF d = 0 THEN T0 ELSE Grow(TreesTo(d - 1))
@@ -210,8 +211,9 @@ CasesOf(T, n) ==
 RECURSIVE RandTree(_)
 RandTree(d) ==
   IF d = 0 \/ RandomElement(1..5) = 1 THEN Lf(RandomElement(LeafKinds))
-  ELSE LET o == RandomElement({"AND","AND","OR","OR","NOT","MUST","MUST_NOT","FUZZY","BOOST"}) IN
-       CASE o \in {"AND","OR"} -> Bi(o, RandTree(d - 1), RandTree(d - 1))
+  ELSE LET o == RandomElement(IF Suffix THEN {"AND","AND2","OR","OR2","NOT","MUST","MUST_NOT","FUZZY","BOOST"}
+                                        ELSE {"AND","AND2","OR","OR2","NOT","MUST","MUST_NOT"}) IN
+       CASE o \in {"AND","OR","AND2","OR2"} -> Bi(IF o \in {"AND","AND2"} THEN "AND" ELSE "OR", RandTree(d - 1), RandTree(d - 1))
          [] o = "FUZZY" -> Sx(o, RandTree(d - 1), RandomElement({"none","int"}))
          [] o = "BOOST" -> Sx(o, RandTree(d - 1), RandomElement({"none","int","float"}))
          [] OTHER -> Un(o, RandTree(d - 1))
